@@ -32,14 +32,14 @@ CHECKS = {
 }
 
 ALL_TARGETS = ["resurrect", "loss", "oldovernew", "crashmid", "crashapply", "vanish", "hblost", "hbkeeps", "busy",
-               "read2get", "read2ids"]
+               "read2get", "read2ids", "idsflush"]
 DEV_TARGETS = {"resurrect", "loss", "oldovernew"}     # reachable only through the deviation
 # BFS runs: (cfg suffix, targets, constant overrides)
 GROUPS = [
     ("base", ["resurrect", "loss", "oldovernew", "vanish", "busy"], {}),
     ("hb", ["hblost", "hbkeeps"], {"MaxHB": "1"}),
     ("crash", ["crashmid", "crashapply"], {"MaxCrashes": "1"}),
-    ("read", ["read2get", "read2ids"], {"MaxReads": "1"}),
+    ("read", ["read2get", "read2ids", "idsflush"], {"MaxReads": "1"}),
 ]
 
 
@@ -153,7 +153,9 @@ def _run(ctx, pool, futures):
     mcb = ctx.pick({"MaxEntries": "2", "MaxCrashes": "1", "MaxHB": "0", "MaxReads": "1"},
                    {"MaxEntries": "3", "MaxCrashes": "1", "MaxHB": "1", "MaxReads": "1"})
     variant(ctx, "PartOutbox.MC.cfg", "mc.PartOutbox.MC.cfg", mcb)
-    f_mc = submit(ctx.tlc, "PartOutbox", "mc.PartOutbox.MC.cfg", workers=ctx.pick(6, 12), timeout=3000, count_mc=False)
+    skip_mc = bool(os.environ.get("VERIF_SKIP_MC"))     # debugging aid only (mutation / seeded-change runs)
+    f_mc = None if skip_mc else submit(ctx.tlc, "PartOutbox", "mc.PartOutbox.MC.cfg", workers=ctx.pick(6, 12), timeout=3000,
+                                       count_mc=False)
 
     # ---- 2. schedules from the model of the code: BFS targets + random walks
     def bfs(group):
@@ -281,7 +283,7 @@ def _run(ctx, pool, futures):
         cov[k] = cov.get(k, 0) + 1
     ctx.extra["forced_event_counts"] = cov
     required = ["tx:commit", "claim:claimed", "claim:busy", "rstart:ok", "rstart:vanished", "rend", "hb:extended", "hb:lost",
-                "fin:deleted", "fin:notowner", "rel", "expire", "crash", "r2", "obs"]
+                "fin:deleted", "fin:notowner", "rel", "expire", "crash", "r2", "r3", "obs"]
     miss = [k for k in required if cov.get(k, 0) == 0]
     if miss:
         raise vlib.Infra("protocol branches never exercised on the real code: %s (infeasible schedules: %d)" % (miss, infeasible))
@@ -360,14 +362,15 @@ def _run(ctx, pool, futures):
     st.append("stress: corrupted final inner store flagged")
 
     # ---- 7. the design-level model check must have passed
-    r = f_mc.result()
-    ctx.states += r.distinct
-    ctx.transitions += r.generated
-    ctx.mc_runs.append({"module": "PartOutbox", "cfg": "PartOutbox.MC.cfg " + json.dumps(mcb), "outcome": r.outcome,
-                        "distinct": r.distinct, "generated": r.generated, "depth": r.depth, "wall_s": round(r.wall, 1), "mode": "bfs"})
-    ctx.log("MC PartOutbox (Deviations={}): %s, %d distinct / %d generated, depth %d, %.1fs" % (r.outcome, r.distinct, r.generated, r.depth, r.wall))
-    if not r.ok():
-        raise vlib.Infra("design-level model check did not pass (%s %s)\n%s" % (r.outcome, r.violated, (r.cex or r.output)[-3000:]))
+    if f_mc is not None:
+        r = f_mc.result()
+        ctx.states += r.distinct
+        ctx.transitions += r.generated
+        ctx.mc_runs.append({"module": "PartOutbox", "cfg": "PartOutbox.MC.cfg " + json.dumps(mcb), "outcome": r.outcome,
+                            "distinct": r.distinct, "generated": r.generated, "depth": r.depth, "wall_s": round(r.wall, 1), "mode": "bfs"})
+        ctx.log("MC PartOutbox (Deviations={}): %s, %d distinct / %d generated, depth %d, %.1fs" % (r.outcome, r.distinct, r.generated, r.depth, r.wall))
+        if not r.ok():
+            raise vlib.Infra("design-level model check did not pass (%s %s)\n%s" % (r.outcome, r.violated, (r.cex or r.output)[-3000:]))
 
     distinct = {json.dumps(s["steps"], sort_keys=True) for s in scheds if s["id"] not in infeas
                 and any(x["a"] in ("rend", "fin") for x in s["steps"])}
